@@ -220,6 +220,160 @@ def one_history(args):
         shutil.rmtree(d, ignore_errors=True)
 
 
+def cluster_run(args):
+    """several nodes drawing from the same named sequence (MCP server ids through each node's console API) and stamping
+    configuration history ids while the leader is killed and restarted"""
+    import threading
+    import procrig
+    wd, cseed = args
+    rnd = random.Random(cseed)
+    res = {"cluster_seed": cseed, "violations": [], "draws_acked": 0, "publishes_acked": 0, "phases": {}, "shapes": []}
+    cl = procrig.Cluster(os.path.join(wd, "cl%d" % cseed), 3, env={"RUST_LOG": "warn", "RNACOS_CONSOLE_LOGIN_ONE_HOUR_LIMIT": "100000"})
+    GROUP = "c19cl"
+    keys = ["h%d" % i for i in range(3)]
+    lock = threading.Lock()
+    draws = []          # {node, id, t_call, t_ret, phase, n}
+    pubs = []           # {key, value, phase, ok}
+    try:
+        cl.start()
+        tok = {}
+
+        def token(nd):
+            if nd.id not in tok:
+                t, r = nd.console_login("admin", "admin", wait=15)
+                if not t:
+                    raise common.Inconclusive("console login on node %d failed: %s" % (nd.id, r.body[:100]))
+                tok[nd.id] = t
+            return tok[nd.id]
+
+        def drawer(nd, phase, n, serial0):
+            for i in range(n):
+                name = "c19-%d-%s-%d-%d" % (cseed, phase, nd.id, serial0 + i)
+                t_call = time.time()
+                try:
+                    r = nd.console("POST", "/rnacos/api/console/v2/mcp/server/add", token(nd), body={"namespace": "", "name": name, "description": "d", "authKeys": ["k"], "tools": []}, timeout=8)
+                    j = r.json() or {}
+                    ok = r.status == 200 and j.get("success") and isinstance(j.get("data"), int)
+                except (OSError, common.Inconclusive):
+                    ok, j = False, {}
+                t_ret = time.time()
+                if ok:
+                    with lock:
+                        draws.append({"node": nd.id, "id": j["data"], "t_call": t_call, "t_ret": t_ret, "phase": phase, "name": name})
+                time.sleep(rnd.choice([0.0, 0.01, 0.03]))
+
+        def publisher(nodes, phase, n):
+            for i in range(n):
+                nd = rnd.choice(nodes)
+                k = keys[i % len(keys)]
+                val = "%s-%d-%d" % (phase, cseed, i)
+                try:
+                    r = nd.post("/nacos/v1/cs/configs", form={"dataId": k, "group": GROUP, "content": val}, timeout=8)
+                    ok = r.status == 200 and r.text().strip() == "true"
+                except OSError:
+                    ok = False
+                with lock:
+                    pubs.append({"key": k, "value": val, "phase": phase, "ok": ok, "via": nd.id})
+                time.sleep(0.02)
+
+        def phase(name, nodes, n_draw, n_pub):
+            ths = [threading.Thread(target=drawer, args=(nd, name, n_draw, 0), daemon=True) for nd in nodes]
+            ths.append(threading.Thread(target=publisher, args=(nodes, name, n_pub), daemon=True))
+            [t.start() for t in ths]
+            [t.join(120) for t in ths]
+            res["phases"][name] = {"nodes": [n.id for n in nodes]}
+
+        # more than one 100-id window per node, so that range fetches through raft happen during every phase
+        phase("p1", cl.nodes, 130, 30)
+        leader = cl.leader()
+        if leader is None:
+            raise common.Inconclusive("no leader after phase 1")
+        if cseed % 2:
+            # the kill lands in the middle of draws and publishes on all three nodes (requests in flight on the leader are lost)
+            kt = threading.Timer(rnd.choice([0.3, 0.6, 1.0]), leader.kill)
+            kt.start()
+            phase("p1k", cl.nodes, 60, 20)
+            kt.join()
+            res["kill"] = "during-draws"
+        else:
+            res["kill"] = "between-phases"
+        leader.kill()
+        res["killed_leader"] = leader.id
+        survivors = [n for n in cl.nodes if n is not leader]
+        t0 = time.time()
+        while time.time() - t0 < 25:
+            ms = [n.metrics() for n in survivors]
+            if all(ms) and len({m.get("current_leader") for m in ms}) == 1 and ms[0].get("current_leader") in [n.id for n in survivors]:
+                break
+            time.sleep(0.3)
+        else:
+            raise common.Inconclusive("no new leader within 25 s of the kill")
+        phase("p2", survivors, 130, 30)
+        leader.start(wait=True, timeout=40)
+        tok.pop(leader.id, None)
+        cl.wait_formed(40)
+        phase("p3", cl.nodes, 60, 15)
+        # ---- oracle over the recorded draws
+        res["draws_acked"] = len(draws)
+        res["publishes_acked"] = sum(1 for p in pubs if p["ok"])
+        by_id = {}
+        for d in draws:
+            by_id.setdefault(d["id"], []).append(d)
+        for i, ds in sorted(by_id.items()):
+            if len(ds) > 1:
+                ph = sorted({d["phase"] for d in ds})
+                cls = "same-phase-%s" % ph[0] if len(ph) == 1 else "across-" + "-".join(ph)
+                res["violations"].append({"signature": "cluster/duplicate-id/mcp-server/%s" % cls,
+                                          "witness": {"id": i, "draws": [{k: d[k] for k in ("node", "phase", "name")} for d in ds], "killed_leader": leader.id, "cluster_seed": cseed}})
+                break
+        for nd in cl.nodes:
+            mine = sorted([d for d in draws if d["node"] == nd.id], key=lambda d: d["t_call"])
+            for a, b in zip(mine, mine[1:]):
+                if b["t_call"] >= a["t_ret"] and b["id"] <= a["id"]:
+                    cls = "within-%s" % a["phase"] if a["phase"] == b["phase"] else "%s-to-%s" % (a["phase"], b["phase"])
+                    res["violations"].append({"signature": "cluster/id-went-backwards/mcp-server/same-node/%s" % cls,
+                                              "witness": {"node": nd.id, "earlier": {k: a[k] for k in ("id", "phase", "name")}, "later": {k: b[k] for k in ("id", "phase", "name")},
+                                                          "restarted_between": nd is leader and a["phase"] != b["phase"], "killed_leader": leader.id, "cluster_seed": cseed}})
+                    break
+        # ---- configuration history ids, read from every node once all are equal (bounded)
+        ref = cl.leader() or cl.nodes[0]
+        hist = {}
+        for k in keys:
+            r = ref.console("GET", "/rnacos/api/console/config/history", token(ref), params={"dataId": k, "group": GROUP, "pageNo": 1, "pageSize": 1000}, timeout=8)
+            j = (r.json() or {}).get("list") if r.status == 200 else None
+            if not isinstance(j, list):
+                raise common.Inconclusive("history of %s not readable: %s" % (k, r.status))
+            hist[k] = [[it.get("id"), it.get("content")] for it in reversed(j)]
+        seen = {}
+        for k, h in hist.items():
+            for (i, c) in h:
+                if i in seen:
+                    res["violations"].append({"signature": "cluster/duplicate-id/history", "witness": {"id": i, "entries": [seen[i], [k, c]], "cluster_seed": cseed}})
+                seen[i] = [k, c]
+            for (ia, ca), (ib, cb) in zip(h, h[1:]):
+                if ib <= ia:
+                    pa, pb = str(ca).split("-")[0], str(cb).split("-")[0]
+                    cls = "within-%s" % pa if pa == pb else "%s-to-%s" % (pa, pb)
+                    res["violations"].append({"signature": "cluster/id-went-backwards/history/%s" % cls,
+                                              "witness": {"key": k, "earlier": [ia, ca], "later": [ib, cb], "killed_leader": leader.id, "cluster_seed": cseed}})
+                    break
+        res["history_entries"] = sum(len(h) for h in hist.values())
+        res["distinct_ids"] = len(by_id)
+        res["id_span"] = [min(by_id), max(by_id)] if by_id else None
+        if res["draws_acked"] >= 300 and not res["violations"]:
+            res["shapes"].append("cluster/3-nodes/leader-kill-%s+restart/draws-%d00" % (res["kill"], res["draws_acked"] // 100))
+        return res
+    except common.Inconclusive as e:
+        res["inconclusive"] = str(e)[:300]
+        return res
+    except OSError as e:
+        res["inconclusive"] = repr(e)[:300]
+        return res
+    finally:
+        cl.kill_all()
+        shutil.rmtree(os.path.join(wd, "cl%d" % cseed), ignore_errors=True)
+
+
 def run(tier, seed):
     common.build()
     wd = common.workdir("c19")
@@ -253,10 +407,29 @@ def run(tier, seed):
             if len(out.samples) < 3:
                 out.samples.append({k: r[k] for k in ("seed", "snap", "restarts", "draws", "publishes", "killed_mid_request", "classes", "compactions") if k in r})
         out.extra.update(agg)
+        # ---- several nodes, leader change (real processes)
+        common.build(need_bin=True)
+        n_cl = 2 if tier == "quick" else 8
+        with ThreadPoolExecutor(max_workers=2) as ex:
+            cres = list(ex.map(cluster_run, [(wd, seed * 1000 + i) for i in range(n_cl)]))
+        cagg = {"clusters": 0, "draws_acked": 0, "publishes_acked": 0, "history_entries": 0, "inconclusive": []}
+        for r in cres:
+            if "inconclusive" in r:
+                cagg["inconclusive"].append(r["inconclusive"])
+                continue
+            cagg["clusters"] += 1
+            out.evaluations += r["draws_acked"] + r["publishes_acked"]
+            for k in ("draws_acked", "publishes_acked", "history_entries"):
+                cagg[k] += r.get(k, 0)
+            for v in r["violations"]:
+                out.violation(v["signature"], v["witness"])
+            for sh in r["shapes"]:
+                out.shape(sh)
+        out.extra["cluster_part"] = cagg
         out.min_nontrivial = 5
         out.assumptions = ["gaps are allowed; ids of requests that were in flight when the node was killed are never observed and not counted",
                            "logical time = driver steps (one driver per node), so no wall-clock comparison is involved",
-                           "multi-node draws are exercised by the cluster rig (C06) in the thorough tier"]
+                           "cluster part: ids may have gaps and need not be ordered ACROSS nodes (each node caches its own 100-id ranges); they must be unique cluster-wide and increasing per drawing node and per key history"]
         return out.finish()
     finally:
         shutil.rmtree(wd, ignore_errors=True)
